@@ -213,7 +213,9 @@ SaveObj(S, k, r, changedNow) ==
 
 DeleteKey(S, k) == Unwritten([S EXCEPT !.store = Drop(S.store, k), !.xk = Drop(S.xk, k)], k)
 
-Out(S, r, dv) == [S |-> Settle(S), r |-> r, ret |-> TRUE, dv |-> dv]
+\* (an outcome that leaves a summoned swamp without records owes that to the EmptySwampExists deviation)
+Out(S, r, dv) == [S |-> Settle(S), r |-> r, ret |-> TRUE,
+                  dv |-> dv \cup (IF D("EmptySwampExists") /\ S.open /\ IsEmpty(S.store) THEN {"EmptySwampExists"} ELSE {})]
 Err(S, code, dv) == Out(S, [err |-> code], dv)
 Hang(S, dv) == [S |-> S, r |-> [err |-> ""], ret |-> FALSE, dv |-> dv]
 
@@ -238,7 +240,7 @@ SetContent(c, it) ==
        IF c = CVoid THEN [c |-> c, ch |-> FALSE, dv |-> {}]
        ELSE IF c = CNil THEN [c |-> CVoid, ch |-> TRUE, dv |-> {}]
        ELSE IF D("VoidNoClear") /\ ~c.void THEN [c |-> c, ch |-> TRUE, dv |-> {"VoidNoClear"}]
-       ELSE IF D("VoidNoClear") /\ c.void THEN [c |-> c, ch |-> FALSE, dv |-> IF c = CVoid THEN {} ELSE {"VoidNoClear"}]
+       ELSE IF c.void THEN [c |-> c, ch |-> FALSE, dv |-> {}]     \* already void: left alone (whatever hides behind it stays)
        ELSE [c |-> CVoid, ch |-> TRUE, dv |-> {}]
 
 SetMeta(r, it) ==
